@@ -643,7 +643,7 @@ class World:
     def mk_provider(self, mdib_path=MDIB_TNS, ip='10.0.0.1', port=8000, ssl_context_container=None, roles=True,
                     async_mgr=False, shared_server=True, validate=True, alternative_hostname=None,
                     max_subscription_duration=15, start=True, instance_id=1, components_hook=None,
-                    periodic_reports_interval=None):
+                    periodic_reports_interval=None, epr=None):
         from sdc11073.mdib import ProviderMdib
         from sdc11073.provider import SdcProvider
         from sdc11073.provider.providerimpl import provider_components_async_factory, provider_components_sync_factory
@@ -663,7 +663,7 @@ class World:
                               model_number='1.0', model_url='www.example.com/m', presentation_url='www.example.com/p')
         device = ThisDeviceType(friendly_name='Loop Device', firmware_version='0.1', serial_number='1')
         wsd = FakeWsDiscovery(ip)
-        provider = SdcProvider(wsd, model, device, mdib, epr=_uuid4(), validate=validate,
+        provider = SdcProvider(wsd, model, device, mdib, epr=epr if epr is not None else _uuid4(), validate=validate,
                                ssl_context_container=ssl_context_container, components=comps,
                                role_provider_components=role_components, alternative_hostname=alternative_hostname,
                                max_subscription_duration=max_subscription_duration)
